@@ -36,11 +36,16 @@ type entry struct {
 	// Class names a value class with a known, triaged defect (empty otherwise); failures of such
 	// variants get the signature C08|<type>|<class>|<kind> instead of the per-transport one.
 	Class func(variant int) string
+	// Leak names, for a pair (variant being read, variant previously held by the receiver), a triaged
+	// receiver-state defect that this very pair exposes (empty otherwise): a value difference observed on such
+	// a pair gets the signature C08|<type>.ReadFrom|<leak>|value-differs, independent of the transport.
+	Leak func(variant, history int) string
 }
 
 type zoo struct {
 	params rlwe.Parameters // 3 Q primes, 2 P primes, N=16
 	noP    rlwe.Parameters // 2 Q primes, no P
+	cinv   rlwe.Parameters // N=32, conjugate-invariant ring, 60-bit primes (the largest that ring accepts) next to a small one
 }
 
 func newZoo() *zoo {
@@ -52,7 +57,11 @@ func newZoo() *zoo {
 	if err != nil {
 		panic(err)
 	}
-	return &zoo{params: p, noP: q}
+	ci, err := rlwe.NewParametersFromLiteral(rlwe.ParametersLiteral{LogN: 5, LogQ: []int{60, 25}, LogP: []int{60}, RingType: ring.ConjugateInvariant, NTTFlag: true})
+	if err != nil {
+		panic(err)
+	}
+	return &zoo{params: p, noP: q, cinv: ci}
 }
 
 // fresh returns a zero receiver of the same dynamic type as v.
@@ -162,6 +171,42 @@ func metaVariant(m *rlwe.MetaData, r *eng.Rand, variant int) {
 	m.LogDimensions = ring.Dimensions{Rows: variant % 2, Cols: variant % 5}
 }
 
+// metaVariant2 covers the corners metaVariant leaves out: the IsBitReversed flag, the largest
+// LogDimensions, the empty (zero-value) MetaData that the *AtLevelFromPoly constructors hand out, tiny and
+// huge (two-digit exponent) scales, a scale of exactly 1 and a 61-bit plaintext modulus.
+func metaVariant2(m *rlwe.MetaData, r *eng.Rand, j int) {
+	switch j % 4 {
+	case 0:
+		*m = rlwe.MetaData{} // zero value: Scale holds a big.Float of precision 0, no modulus
+	case 1:
+		m.IsBitReversed, m.IsBatched, m.IsNTT = true, true, true
+		m.Scale = rlwe.NewScale(new(big.Float).SetPrec(128).SetMantExp(big.NewFloat(1.0+float64(r.N(1000))/1024), -40))
+		m.LogDimensions = ring.Dimensions{Rows: 1, Cols: 15}
+	case 2:
+		m.IsBitReversed, m.IsMontgomery = true, true
+		m.Scale = rlwe.NewScaleModT(1, 0x1fffffffffe00001)
+		m.LogDimensions = ring.Dimensions{Rows: 0, Cols: 127}
+	default:
+		m.IsBatched = true
+		m.Scale = rlwe.NewScale(new(big.Float).SetPrec(128).SetMantExp(big.NewFloat(1.0+float64(r.N(1000))/1024), 300))
+		m.LogDimensions = ring.Dimensions{Rows: 1, Cols: 16}
+	}
+}
+
+const leakMetaData = "receiver-metadata-survives-encoding-without-metadata"
+
+// sharedPolys returns polynomials at `level` that are windows into larger allocations (capacity above
+// length in the RNS dimension), as the *AtLevelFromPoly constructors produce them.
+func sharedPolys(r *eng.Rand, n, level, count int) []ring.Poly {
+	out := make([]ring.Poly, count)
+	for i := range out {
+		p := ring.NewPoly(n, level+1+i%2)
+		rz(r, &p)
+		out[i] = p
+	}
+	return out
+}
+
 var entries = []entry{
 	{Name: "ring.Poly", Variants: 4, Make: func(z *zoo, r *eng.Rand, v int) ser {
 		p := ring.NewPoly(16<<(v%2), v%3)
@@ -176,30 +221,164 @@ var entries = []entry{
 		}
 		return rz(r, &p)
 	}},
-	{Name: "rlwe.Plaintext", Variants: 4, Make: func(z *zoo, r *eng.Rand, v int) ser {
+	{Name: "rlwe.Plaintext", Variants: 8, Make: func(z *zoo, r *eng.Rand, v int) ser {
+		switch v {
+		case 4: // no MetaData at all (Element built by NewElementAtLevelFromPoly)
+			el, err := rlwe.NewElementAtLevelFromPoly(1, sharedPolys(r, 16, 1, 1))
+			if err != nil {
+				panic(err)
+			}
+			return &rlwe.Plaintext{Element: *el, Value: el.Value[0]}
+		case 5: // empty MetaData, polynomial shared with a larger allocation
+			pt, err := rlwe.NewPlaintextAtLevelFromPoly(0, sharedPolys(r, 16, 0, 1)[0])
+			if err != nil {
+				panic(err)
+			}
+			return pt
+		case 6: // the plaintext view of a ciphertext (shares MetaData and the first polynomial)
+			ct := rlwe.NewCiphertext(z.params, 1, 2)
+			metaVariant2(ct.MetaData, r, 1)
+			return rz(r, ct).Plaintext()
+		case 7: // deep copy of a resized plaintext
+			pt := rlwe.NewPlaintext(z.params, 2)
+			metaVariant2(pt.MetaData, r, 2)
+			rz(r, pt)
+			pt.Resize(0, 1)
+			pt.Value = pt.Element.Value[0]
+			return pt.CopyNew()
+		}
 		pt := rlwe.NewPlaintext(z.params, v%3)
 		metaVariant(pt.MetaData, r, v)
 		return rz(r, pt)
+	}, Leak: func(v, h int) string {
+		if v == 4 && h >= 0 && h != 4 {
+			return leakMetaData
+		}
+		return ""
 	}},
-	{Name: "rlwe.Ciphertext", Variants: 6, Make: func(z *zoo, r *eng.Rand, v int) ser {
+	{Name: "rlwe.Ciphertext", Variants: 11, Make: func(z *zoo, r *eng.Rand, v int) ser {
+		switch v {
+		case 6: // no MetaData at all
+			el, err := rlwe.NewElementAtLevelFromPoly(1, sharedPolys(r, 16, 1, 2))
+			if err != nil {
+				panic(err)
+			}
+			return &rlwe.Ciphertext{Element: *el}
+		case 7: // empty MetaData, polynomials shared with larger allocations
+			ct, err := rlwe.NewCiphertextAtLevelFromPoly(0, sharedPolys(r, 16, 0, 3))
+			if err != nil {
+				panic(err)
+			}
+			return ct
+		case 8: // resized downwards in degree and level: capacity above length in both dimensions
+			ct := rlwe.NewCiphertext(z.params, 2, 2)
+			metaVariant2(ct.MetaData, r, 1)
+			rz(r, ct)
+			ct.Resize(1, 1)
+			return ct
+		case 9: // resized upwards, then deep-copied
+			ct := rlwe.NewCiphertext(z.params, 0, 0)
+			metaVariant2(ct.MetaData, r, 2)
+			ct.Resize(2, 2)
+			return rz(r, ct).CopyNew()
+		case 10: // ring degree other than the one of every other variant
+			ct := rlwe.NewCiphertext(z.cinv, 1, 1)
+			metaVariant2(ct.MetaData, r, 3)
+			return rz(r, ct)
+		}
 		ct := rlwe.NewCiphertext(z.params, v%3, (v+1)%3)
 		metaVariant(ct.MetaData, r, v)
 		return rz(r, ct)
+	}, Leak: func(v, h int) string {
+		if v == 6 && h >= 0 && h != 6 {
+			return leakMetaData
+		}
+		return ""
 	}},
-	{Name: "rlwe.SecretKey", Variants: 2, Make: func(z *zoo, r *eng.Rand, v int) ser {
-		if v == 0 {
+	{Name: "rlwe.Element[ring.Poly]", Variants: 5, Make: func(z *zoo, r *eng.Rand, v int) ser {
+		switch v {
+		case 0:
+			el, err := rlwe.NewElementAtLevelFromPoly(2, sharedPolys(r, 16, 2, 2))
+			if err != nil {
+				panic(err)
+			}
+			return el
+		case 1:
+			el := rlwe.NewElement(z.params, 1, 1)
+			metaVariant(el.MetaData, r, 3)
+			return rz(r, el)
+		case 2:
+			el := rlwe.NewElement(z.params, 0)
+			metaVariant2(el.MetaData, r, 1)
+			return rz(r, el)
+		case 3:
+			el := rlwe.NewElement(z.noP, 2, 0)
+			metaVariant2(el.MetaData, r, 0)
+			return rz(r, el)
+		}
+		el := rlwe.NewElement(z.params, 2, 2)
+		metaVariant2(el.MetaData, r, 3)
+		rz(r, el)
+		el.Resize(0, 0)
+		return el
+	}, Leak: func(v, h int) string {
+		if v == 0 && h > 0 {
+			return leakMetaData
+		}
+		return ""
+	}},
+	{Name: "rlwe.Element[ringqp.Poly]", Variants: 4, Make: func(z *zoo, r *eng.Rand, v int) ser {
+		switch v {
+		case 0:
+			el := rlwe.NewElementExtended(z.params, 1, 1, 0)
+			el.MetaData = nil
+			return rz(r, el)
+		case 1:
+			el := rlwe.NewElementExtended(z.params, 1, 2, 1)
+			metaVariant(el.MetaData, r, 5)
+			return rz(r, el)
+		case 2:
+			el := rlwe.NewElementExtended(z.params, 0, 0, -1)
+			metaVariant2(el.MetaData, r, 2)
+			return rz(r, el)
+		}
+		el := rlwe.NewElementExtended(z.noP, 2, 1, -1)
+		metaVariant2(el.MetaData, r, 1)
+		return rz(r, el)
+	}, Leak: func(v, h int) string {
+		if v == 0 && h > 0 {
+			return leakMetaData
+		}
+		return ""
+	}},
+	{Name: "rlwe.SecretKey", Variants: 4, Make: func(z *zoo, r *eng.Rand, v int) ser {
+		switch v {
+		case 0:
 			return rz(r, rlwe.NewSecretKey(z.params))
+		case 2:
+			return rz(r, rlwe.NewSecretKey(z.cinv))
+		case 3:
+			return rz(r, rlwe.NewSecretKey(z.params)).CopyNew()
 		}
 		return rz(r, rlwe.NewSecretKey(z.noP))
 	}},
-	{Name: "rlwe.PublicKey", Variants: 2, Make: func(z *zoo, r *eng.Rand, v int) ser {
-		if v == 0 {
+	{Name: "rlwe.PublicKey", Variants: 4, Make: func(z *zoo, r *eng.Rand, v int) ser {
+		switch v {
+		case 0:
 			return rz(r, rlwe.NewPublicKey(z.params))
+		case 2:
+			return rz(r, rlwe.NewPublicKey(z.cinv))
+		case 3:
+			return rz(r, rlwe.NewPublicKey(z.noP)).CopyNew()
 		}
 		return rz(r, rlwe.NewPublicKey(z.noP))
 	}},
-	{Name: "rlwe.GadgetCiphertext", Variants: 4, Make: func(z *zoo, r *eng.Rand, v int) ser {
+	{Name: "rlwe.GadgetCiphertext", Variants: 6, Make: func(z *zoo, r *eng.Rand, v int) ser {
 		switch v {
+		case 4: // 60-bit primes, N=32, many power-of-two digits
+			return rz(r, rlwe.NewGadgetCiphertext(z.cinv, 1, 1, 0, 5))
+		case 5: // deep copy
+			return rz(r, rlwe.NewGadgetCiphertext(z.params, 0, 2, 0, 16)).CopyNew()
 		case 0:
 			return rz(r, rlwe.NewGadgetCiphertext(z.params, 1, 2, 1, 0))
 		case 1:
@@ -235,7 +414,7 @@ var entries = []entry{
 		}
 		return k
 	}},
-	{Name: "rlwe.MemEvaluationKeySet", Variants: 5, Make: func(z *zoo, r *eng.Rand, v int) ser {
+	{Name: "rlwe.MemEvaluationKeySet", Variants: 8, Make: func(z *zoo, r *eng.Rand, v int) ser {
 		mk := func(g uint64, vv int) *rlwe.GaloisKey {
 			p, e := z.evp(vv)
 			k := rz(r, rlwe.NewGaloisKey(p, e))
@@ -263,10 +442,16 @@ var entries = []entry{
 			return rlwe.NewMemEvaluationKeySet(rlk(1))
 		case 3:
 			return rlwe.NewMemEvaluationKeySet(nil)
+		case 5: // nil map of Galois keys (a literal, not the constructor)
+			return &rlwe.MemEvaluationKeySet{RelinearizationKey: rlk(0)}
+		case 6: // zero value
+			return &rlwe.MemEvaluationKeySet{}
+		case 7: // deep copies of keys
+			return rlwe.NewMemEvaluationKeySet(rlk(4).CopyNew(), mk(11, 3).CopyNew(), mk(13, 4))
 		}
 		return rlwe.NewMemEvaluationKeySet(rlk(2), mk(7, 2), mk(9, 0), mk(31, 1))
 	}},
-	{Name: "bootstrapping.EvaluationKeys", Variants: 6, Make: func(z *zoo, r *eng.Rand, v int) ser {
+	{Name: "bootstrapping.EvaluationKeys", Variants: 8, Make: func(z *zoo, r *eng.Rand, v int) ser {
 		// the key bundle of the bootstrapping circuit: six optional switching keys (each with its own content and
 		// shape, so that a mixed-up field shows) and the rlk/Galois key set
 		evk := func(vv int) *rlwe.EvaluationKey {
@@ -307,8 +492,18 @@ var entries = []entry{
 		case 5:
 			b.EvkCmplxToReal, b.EvkSparseToDense = evk(2), evk(0)
 			b.MemEvaluationKeySet = rlwe.NewMemEvaluationKeySet(nil, gk(3, 2))
+		case 6: // switching keys only: no relinearisation / Galois key set
+			b.MemEvaluationKeySet = nil
+			b.EvkDenseToSparse, b.EvkSparseToDense = evk(0), evk(3)
+		case 7: // zero value
+			b.MemEvaluationKeySet = nil
 		}
 		return b
+	}, Leak: func(v, h int) string {
+		if v >= 6 && h >= 0 && h < 6 {
+			return "receiver-key-set-survives-encoding-without-key-set"
+		}
+		return ""
 	}},
 	{Name: "rgsw.Ciphertext", Variants: 3, Make: func(z *zoo, r *eng.Rand, v int) ser {
 		switch v {
@@ -319,18 +514,26 @@ var entries = []entry{
 		}
 		return rz(r, rgsw.NewCiphertext(z.noP, 1, -1, 11))
 	}},
-	{Name: "rlwe.MetaData", Variants: 8, Make: func(z *zoo, r *eng.Rand, v int) ser {
+	{Name: "rlwe.MetaData", Variants: 12, Make: func(z *zoo, r *eng.Rand, v int) ser {
 		m := &rlwe.MetaData{}
+		if v >= 8 {
+			metaVariant2(m, r, v-8)
+			return m
+		}
 		metaVariant(m, r, v)
 		return m
 	}, Class: func(v int) string {
-		if v >= 6 {
+		if v == 6 || v == 7 {
 			return "scale-with-3-digit-decimal-exponent"
 		}
 		return ""
 	}},
-	{Name: "rlwe.PlaintextMetaData", Variants: 6, Make: func(z *zoo, r *eng.Rand, v int) ser {
+	{Name: "rlwe.PlaintextMetaData", Variants: 10, Make: func(z *zoo, r *eng.Rand, v int) ser {
 		m := &rlwe.MetaData{}
+		if v >= 6 {
+			metaVariant2(m, r, v-6)
+			return &m.PlaintextMetaData
+		}
 		metaVariant(m, r, v)
 		return &m.PlaintextMetaData
 	}},
@@ -352,8 +555,23 @@ var entries = []entry{
 		}
 		return rz(r, &vq)
 	}},
-	{Name: "rlwe.Parameters", Variants: 3, Make: func(z *zoo, r *eng.Rand, v int) ser {
+	{Name: "rlwe.Parameters", Variants: 6, Make: func(z *zoo, r *eng.Rand, v int) ser {
 		switch v {
+		case 3: // 60-bit primes, conjugate-invariant ring
+			p := z.cinv
+			return &p
+		case 4: // smallest ring, one small prime, non-default root order, no NTT flag, huge default scale
+			p, err := rlwe.NewParametersFromLiteral(rlwe.ParametersLiteral{LogN: 4, LogNthRoot: 7, LogQ: []int{20}, Xs: ring.Ternary{P: 0.5}, Xe: ring.DiscreteGaussian{Sigma: 0.5, Bound: 1}, DefaultScale: rlwe.NewScale(new(big.Float).SetPrec(128).SetMantExp(big.NewFloat(1.5), 90))})
+			if err != nil {
+				panic(err)
+			}
+			return &p
+		case 5: // many RNS digits, explicit primes, modular default scale
+			p, err := rlwe.NewParametersFromLiteral(rlwe.ParametersLiteral{LogN: 6, LogQ: []int{60, 20, 30, 40, 50, 45, 33}, LogP: []int{60, 55}, NTTFlag: true, DefaultScale: rlwe.NewScaleModT(3, 65537)})
+			if err != nil {
+				panic(err)
+			}
+			return &p
 		case 0:
 			p := z.params
 			return &p
@@ -412,7 +630,28 @@ var entries = []entry{
 		s := proto.AllocateShare(v % 3)
 		return rz(r, &s)
 	}},
-	{Name: "multiparty.PublicKeySwitchShare", Variants: 3, Make: func(z *zoo, r *eng.Rand, v int) ser {
+	{Name: "multiparty.PublicKeySwitchShare", Variants: 5, Leak: func(v, h int) string {
+		if v == 3 && h >= 0 && h != 3 {
+			return leakMetaData
+		}
+		return ""
+	}, Make: func(z *zoo, r *eng.Rand, v int) ser {
+		if v == 3 { // a share whose element carries no MetaData
+			el, err := rlwe.NewElementAtLevelFromPoly(1, sharedPolys(r, 16, 1, 2))
+			if err != nil {
+				panic(err)
+			}
+			return &multiparty.PublicKeySwitchShare{Element: *el}
+		}
+		if v == 4 {
+			proto, err := multiparty.NewPublicKeySwitchProtocol(z.cinv, ring.DiscreteGaussian{Sigma: 3.2, Bound: 19})
+			if err != nil {
+				panic(err)
+			}
+			s := proto.AllocateShare(1)
+			metaVariant2(s.MetaData, r, 1)
+			return rz(r, &s)
+		}
 		proto, err := multiparty.NewPublicKeySwitchProtocol(z.params, ring.DiscreteGaussian{Sigma: 3.2, Bound: 19})
 		if err != nil {
 			panic(err)
@@ -420,7 +659,16 @@ var entries = []entry{
 		s := proto.AllocateShare(v % 3)
 		return rz(r, &s)
 	}},
-	{Name: "multiparty.RefreshShare", Variants: 3, Make: func(z *zoo, r *eng.Rand, v int) ser {
+	{Name: "multiparty.RefreshShare", Variants: 6, Make: func(z *zoo, r *eng.Rand, v int) ser {
+		if v >= 3 {
+			proto, err := multiparty.NewKeySwitchProtocol(z.cinv, ring.DiscreteGaussian{Sigma: 3.2, Bound: 19})
+			if err != nil {
+				panic(err)
+			}
+			s := multiparty.RefreshShare{EncToShareShare: proto.AllocateShare(v % 2), ShareToEncShare: proto.AllocateShare((v + 1) % 2)}
+			metaVariant2(&s.MetaData, r, v)
+			return rz(r, &s)
+		}
 		proto, err := multiparty.NewKeySwitchProtocol(z.params, ring.DiscreteGaussian{Sigma: 3.2, Bound: 19})
 		if err != nil {
 			panic(err)
